@@ -30,6 +30,7 @@ type idesc struct {
 	Framing string `json:"framing"`
 	Fin     bool   `json:"clean_close"`
 	Cuts    []int  `json:"cuts"`
+	Refuse  int    `json:"get_requests_answered_503_first"`
 	Got1    int    `json:"delivered_by_faulty_download"`
 	Err1    string `json:"error_of_faulty_download,omitempty"`
 	Adv1    int    `json:"advertised_bytes_after_faulty_download"`
@@ -82,23 +83,27 @@ func indexStage(dir string, seed uint64, tier string) error {
 		kind, dlen, framing int
 		fin                 bool
 		cuts                []int
+		refuse              int // GET requests answered 503 first
 	}
 	var plans []plan
 	// corners: a drop at every interesting offset while the body streams into the cache file (seeded change C20-6), and the same without a cache
 	for _, cached := range []bool{true, false} {
 		for _, cut := range []int{0, 1, 150, 299} {
-			plans = append(plans, plan{cached, 0, 300, frLength, false, []int{cut}})
-			plans = append(plans, plan{cached, 0, 300, frLength, true, []int{cut}})
-			plans = append(plans, plan{cached, 0, 300, frChunked, false, []int{cut}})
+			plans = append(plans, plan{cached, 0, 300, frLength, false, []int{cut}, 0})
+			plans = append(plans, plan{cached, 0, 300, frLength, true, []int{cut}, 0})
+			plans = append(plans, plan{cached, 0, 300, frChunked, false, []int{cut}, 0})
 		}
-		plans = append(plans, plan{cached, 0, 300, frChunked, true, []int{300}}) // cut after the last byte, before the terminating chunk
-		plans = append(plans, plan{cached, 1, 4097, frLength, true, []int{2000, 3000}})
-		plans = append(plans, plan{cached, 2, 4097, frLength, false, []int{2000}})
-		plans = append(plans, plan{cached, 0, 4097, frLength, false, nil})
+		plans = append(plans, plan{cached, 0, 300, frChunked, true, []int{300}, 0}) // cut after the last byte, before the terminating chunk
+		plans = append(plans, plan{cached, 1, 4097, frLength, true, []int{2000, 3000}, 0})
+		plans = append(plans, plan{cached, 2, 4097, frLength, false, []int{2000}, 0})
+		plans = append(plans, plan{cached, 0, 4097, frLength, false, nil, 0})
 		// close-delimited responses closed cleanly: finding C20-F1 (plain) and C20-F2 (the short body stays in the cache)
-		plans = append(plans, plan{cached, 0, 300, frClose, true, []int{150}})
-		plans = append(plans, plan{cached, 1, 13, frClose, true, []int{0}})
-		plans = append(plans, plan{cached, 0, 300, frClose, true, nil}) // not cut: complete
+		plans = append(plans, plan{cached, 0, 300, frClose, true, []int{150}, 0})
+		plans = append(plans, plan{cached, 1, 13, frClose, true, []int{0}, 0})
+		plans = append(plans, plan{cached, 0, 300, frClose, true, nil, 0}) // not cut: complete
+		// the GET is answered 503 (with a body, without one): the callers' status test / retrieveAndSaveFile's is what refuses it
+		plans = append(plans, plan{cached, 0, 300, frLength, false, nil, 1})
+		plans = append(plans, plan{cached, 1, 13, frLength, false, nil, 1})
 	}
 	for i := 0; i < n; i++ {
 		dlen := gal.Pick(r, []int{1, 13, 300, 4097, 20000})
@@ -115,7 +120,7 @@ func indexStage(dir string, seed uint64, tier string) error {
 				cuts[j] = min(cuts[j], dlen)
 			}
 		}
-		plans = append(plans, plan{r.Chance(2, 3), r.Intn(3), dlen, fr, fin, cuts})
+		plans = append(plans, plan{r.Chance(2, 3), r.Intn(3), dlen, fr, fin, cuts, 0})
 	}
 	optBytes := func(present bool, b []byte, dseed, dlen int, data []byte) string {
 		if !present {
@@ -129,7 +134,7 @@ func indexStage(dir string, seed uint64, tier string) error {
 	for i, p := range plans {
 		dseed := r.Intn(1000)
 		data := genData(dseed, p.dlen)
-		srv := &cutServer{data: data, kind: p.kind, cuts: append([]int(nil), p.cuts...), framing: p.framing, fin: p.fin, bare: i%2 == 0}
+		srv := &cutServer{data: data, kind: p.kind, cuts: append([]int(nil), p.cuts...), framing: p.framing, fin: p.fin, bare: i%2 == 0, refuse: p.refuse}
 		cdir := ""
 		if p.cached {
 			srv.etag = fmt.Sprintf("\"rev-%d\"", i)
@@ -191,6 +196,8 @@ func indexStage(dir string, seed uint64, tier string) error {
 		}
 		isCut := firstCut >= 0 && (firstCut < p.dlen || (firstCut == p.dlen && p.framing == frChunked && p.dlen > 0))
 		switch {
+		case p.refuse > 0:
+			conn = "CStatus"
 		case !isCut:
 			if p.framing == frClose {
 				conn = fmt.Sprintf("(CCloseDelim %s %s)", kindNames[p.kind], gal.Nat(p.dlen))
@@ -208,6 +215,9 @@ func indexStage(dir string, seed uint64, tier string) error {
 		live := !p.cached && !unframed1 && !corner1 && effCuts1 <= 2 && p.kind == 0 && !p.fin
 		if !isCut {
 			live = true // the first connection delivers everything
+		}
+		if p.refuse > 0 {
+			live = false
 		}
 		if unframed1 {
 			live = false
@@ -244,9 +254,9 @@ func indexStage(dir string, seed uint64, tier string) error {
 		if isCut {
 			cutClass = "cut"
 		}
-		w.Add(gal.Case{Term: term, Class: fmt.Sprintf("index-%s/%s/%s/%s", path, kindNames[p.kind], framingNames[p.framing], cutClass), Trivial: len(p.cuts) == 0,
+		w.Add(gal.Case{Term: term, Class: fmt.Sprintf("index-%s/%s/%s/%s", path, kindNames[p.kind], framingNames[p.framing], cutClass), Trivial: len(p.cuts) == 0 && p.refuse == 0,
 			Key:  fmt.Sprintf("%d", i),
-			Desc: idesc{path, kindNames[p.kind], p.dlen, framingNames[p.framing], p.fin, p.cuts, len(got[0]), es[0], advLen, tmps[0], len(got[1]), es[1], live, model}})
+			Desc: idesc{path, kindNames[p.kind], p.dlen, framingNames[p.framing], p.fin, p.cuts, p.refuse, len(got[0]), es[0], advLen, tmps[0], len(got[1]), es[1], live, model}})
 	}
 	return w.Flush()
 }
